@@ -1,4 +1,4 @@
-import Mq.Render
+import Proofs.FillPackets
 /-!
 # C18 — diagnostics never disclose credentials
 
@@ -19,8 +19,6 @@ theorem C18_dump (p : Connect) (u₁ u₂ pw₁ pw₂ : Bytes) (hu : u₁.length
     (Packet.connect (p.withCreds u₁ pw₁)).dump = (Packet.connect (p.withCreds u₂ pw₂)).dump := by
   simp only [Packet.dump, Connect.dump, Connect.withCreds, hu, hp]
 
-theorem encBin_length (v : Bytes) : (encBin v).length = v.length + 2 := by simp [encBin]
-
 /-- the frame size is a function of the lengths only -/
 theorem C18_size (p : Connect) (u₁ u₂ pw₁ pw₂ : Bytes) (hu : u₁.length = u₂.length) (hp : pw₁.length = pw₂.length) :
     (p.withCreds u₁ pw₁).encode?.map List.length = (p.withCreds u₂ pw₂).encode?.map List.length := by
@@ -37,8 +35,9 @@ theorem C18_size (p : Connect) (u₁ u₂ pw₁ pw₂ : Bytes) (hu : u₁.length
 theorem C18_string (p : Connect) (u₁ u₂ pw₁ pw₂ : Bytes) (hu : u₁.length = u₂.length) (hp : pw₁.length = pw₂.length) :
     (Packet.connect (p.withCreds u₁ pw₁)).string = (Packet.connect (p.withCreds u₂ pw₂)).string := by
   have hs := C18_size p u₁ u₂ pw₁ pw₂ hu hp
+  rw [← Connect.fillG_dry, ← Connect.fillG_dry] at hs
   simp only [Packet.string]
-  cases h1 : (p.withCreds u₁ pw₁).encode? <;> cases h2 : (p.withCreds u₂ pw₂).encode? <;>
+  cases h1 : (p.withCreds u₁ pw₁).fillG? <;> cases h2 : (p.withCreds u₂ pw₂).fillG? <;>
     simp only [h1, h2, Option.map_none, Option.map_some, reduceCtorEq, Option.some.injEq] at hs
   · rfl
   · simp only [Connect.withCreds, hs]
